@@ -9,7 +9,7 @@ import z3
 from . import loader, smt
 from .values import *
 from .state import *
-from .engine import LIST_LEN, OBJ_CLS, MAX_PATHS
+from .engine import LIST_LEN, LIST_ETYPE, OBJ_CLS, MAX_PATHS
 from .execu import from_py, LIST_MUTATORS
 from .calls import Calls
 from .contracts import REG, parse_type, type_str
@@ -355,7 +355,7 @@ class Verifier(Calls):
         self.havoc_loop(st, writes, stmt)
         # 3. assume the invariant in the arbitrary iteration state
         for inv in invs:
-            st.assume(self.eval_spec(st, inv, self.cur_spec_frame(st), old=st.old))
+            st.assume(self.eval_spec(st, inv, self.cur_spec_frame(st), old=st.old, assume=True))
         if pre_body:
             ivar, svar = pre_body
             iv = self.lookup(st, ivar)
@@ -898,10 +898,20 @@ class Verifier(Calls):
         # closures: an outer frame holding the captured variables
         parent = None
         if c.captures:
+            st.owner_bound = fresh_int('owner_bound')
+            st.assume(AND(st.owner_bound >= 1, st.owner_bound <= st.alloc))
             outer_key = c.key.rsplit('.<locals>.', 1)[0]
             outer = Frame(m, outer_key)
             for n, T in c.captures.items():
                 outer.loc[n] = self.param_value(st, n, parse_type(T), c)
+            # sibling closures of the enclosing function are visible by name
+            try:
+                _, outer_fn = loader.get_function(outer_key)
+                from .loader import _direct_nested
+                for sib in _direct_nested(outer_fn):
+                    outer.loc.setdefault(sib.name, VFn(('closure', '%s.<locals>.%s' % (outer_key, sib.name), 0)))
+            except loader.LoadError:
+                pass
             st.frames.append(outer)
             parent = 0
         fr = Frame(m, c.key, parent=parent)
@@ -927,9 +937,9 @@ class Verifier(Calls):
     def run_function(self, c, m, fn):
         st = self.entry_state(c, m, fn)
         for r in c.requires:
-            st.assume(self.eval_spec(st, r, st.frame))
+            st.assume(self.eval_spec(st, r, st.frame, assume=True))
         for inv in c.closure_invariant:
-            st.assume(self.eval_spec(st, inv, st.frame))
+            st.assume(self.eval_spec(st, inv, st.frame, assume=True))
         # vacuity: the precondition must be satisfiable
         v, _, _, _ = smt.decide(list(st.pc) + self.base_axioms(), want_model=False, ext=False)
         if v == 'unsat':
@@ -949,7 +959,7 @@ class Verifier(Calls):
                         g = self.eval_spec(s, e, s.frame, old=old, result=rv)
                         self.prove(s, g, 'post', fn, e)
                     for inv in c.closure_invariant:
-                        self.prove(s, self.eval_spec(s, inv, s.frame, old=old, result=rv), 'closure-inv', fn, inv)
+                        self.prove(s, self.eval_spec(s, inv, s.frame, old=old), 'closure-inv', fn, inv)
                     self.check_frame(s, old, c, fn)
                 elif kind == 'raise':
                     self.exits += 1
@@ -975,15 +985,18 @@ class Verifier(Calls):
     def check_frame(self, s, old, c, fn):
         if '*' in c.modifies:
             return
-        if s.hgen != old.hgen:
+        if s.hgen_unknown and not old.hgen_unknown:
             self.prove(s, FALSE, 'frame', fn, 'the whole heap was havocked by an unmodelled effect')
             return
+        owned_ok = 'owned' in c.modifies
         allowed = {}     # key -> [ref terms]
         lists_ok = []
         probe = old.fork()
         probe.spec = True
         for mexpr in c.modifies:
             mexpr = mexpr.strip()
+            if mexpr == 'owned':
+                continue
             if mexpr.endswith('[*]'):
                 v = self.ev1(self.parse_spec(mexpr[:-3]), probe)
                 for _, a in (v.alts if isinstance(v, VU) else [(TRUE, v)]):
@@ -1013,7 +1026,7 @@ class Verifier(Calls):
                     for j in range(len(slots(T))):
                         allowed.setdefault(('$rec:' + v.name, t.slice.value, j), []).append(v.t)
         for key, arr in s.heap.items():
-            if key == OBJ_CLS:
+            if key in (OBJ_CLS, LIST_ETYPE):
                 continue
             arr0 = old.heap.get(key)
             if arr0 is None:
@@ -1021,7 +1034,10 @@ class Verifier(Calls):
             if arr.eq(arr0):
                 continue
             r = fresh_int('fr')
-            cond = AND(r >= 1, r < old.alloc, *[r != a for a in allowed.get(key, [])])
+            limit = old.alloc
+            if owned_ok and s.owner_bound is not None:
+                limit = s.owner_bound     # closure: objects owned by the enclosing call may be modified
+            cond = AND(r >= 1, r < limit, *[r != a for a in allowed.get(key, [])])
             goal = IMPL(cond, z3.Select(arr, r) == z3.Select(arr0, r))
             self.prove(s, goal, 'frame', fn, 'only %s modified; checked %s.%s' % (c.modifies or 'nothing', key[0], key[1]))
 
